@@ -347,32 +347,35 @@ func (f *fidRef) markChildDeleted(name string) {
 //
 // Precondition: this must be called via safelyGlobal.
 func notifyNameChange(pn *pathNode) {
-	// Call on all local references.
-	func() {
-		// Hold a reference on each child while it is notified, as
-		// removeWithName does: a connection that ends drops its
-		// references without the rename lock, and a reference whose
-		// count has reached zero has had, or is having, its file
-		// closed. The references are released after the child lock,
-		// which the release of a last reference takes itself.
-		var held []*fidRef
-		defer func() {
-			for _, ref := range held {
-				ref.DecRef()
-			}
-		}()
-		pn.forEachChildRef(func(ref *fidRef, name string) {
-			if !ref.TryIncRef() {
-				return
-			}
-			held = append(held, ref)
-			ref.file.Renamed(ref.parent.file, name)
-		})
+	// Hold a reference on each child while it is notified, as
+	// removeWithName does: a connection that ends drops its references
+	// without the rename lock, and a reference whose count has reached
+	// zero has had, or is having, its file closed. The references are
+	// released once the whole subtree has been visited: the release of a
+	// last reference takes the child lock of the node it is listed in, and
+	// the one of its ancestors', which are held during the visit.
+	var held []*fidRef
+	defer func() {
+		for _, ref := range held {
+			ref.DecRef()
+		}
 	}()
+	notifyNameChangeHolding(pn, &held)
+}
+
+func notifyNameChangeHolding(pn *pathNode, held *[]*fidRef) {
+	// Call on all local references.
+	pn.forEachChildRef(func(ref *fidRef, name string) {
+		if !ref.TryIncRef() {
+			return
+		}
+		*held = append(*held, ref)
+		ref.file.Renamed(ref.parent.file, name)
+	})
 
 	// Call on all subtrees.
 	pn.forEachChildNode(func(pn *pathNode) {
-		notifyNameChange(pn)
+		notifyNameChangeHolding(pn, held)
 	})
 }
 
